@@ -241,6 +241,14 @@ Theorem stack_chunk_invariant_enc_edi : forall cp fuelD crlf N buflen delim esc 
   edi_tokens_rd _ (dec_rd cp 4096 source io_read fuelD) crlf N buflen delim esc gasB gas fuel (dec_init, mkSrc cs' wl' t) = Ok res.
 Proof. intros. eapply stack_chunk_invariant_enc_edi; eassumption. Qed.
 
+(* Known finding F30 (JSON error texts carry a line number counted over the decoder's read-ahead):
+   such a counter is not chunk-invariant.  Replayed from replays/corpus/C09/f30_json_line_number.json;
+   the main stream masks exactly that number for JSON (guard json_line_masked). *)
+Theorem line_count_readahead_refuted :
+  exists cs cs' wl t, concat cs = concat cs' /\ runs_ok cs = true /\ runs_ok cs' = true /\
+    fst (snd (lcr_read (1, mkSrc cs wl t) 512)) <> fst (snd (lcr_read (1, mkSrc cs' wl t) 512)).
+Proof. exact line_count_readahead_refuted. Qed.
+
 (* The full statement that stack_chunk_invariant_partial left open (scanner above, decoder below):
    for utf-8 both complete stacks at once; the charmap versions are the two _enc_ theorems above. *)
 Theorem stack_chunk_invariant : forall crlf N buflen delim esc gasB gas fuel cs cs' wl wl' t rl rt,
